@@ -3183,6 +3183,13 @@ def Namespace(*args, **kwargs):
 
 HANDLED_FUNCTIONS = {}
 
+def _contract(arg: Array, axes) -> Array:
+    # Sum over `axes` as in a contraction: NumPy's dot, matmul, vdot and einsum
+    # keep booleans boolean (or of ands), whereas numpy.sum counts them.
+    summed = numpy.sum(arg, axes)
+    return numpy.greater(summed, 0) if arg.dtype == bool else summed
+
+
 class __implementations__:
 
     def implements(np_function):
@@ -3283,11 +3290,11 @@ class __implementations__:
         if arg1.shape[-1] != arg2.shape[-1 if arg2.ndim == 1 else -2]:
             raise ValueError(f'shapes {arg1.shape} and {arg2.shape} are not aligned')
         if arg2.ndim == 1:
-            return (arg1 * arg2).sum(-1)
+            return _contract(arg1 * arg2, -1)
         elif arg1.ndim == 1:
-            return (arg1[:, numpy.newaxis] * arg2).sum(-2)
+            return _contract(arg1[:, numpy.newaxis] * arg2, -2)
         else:
-            return (arg1[..., :, :, numpy.newaxis] * arg2[..., numpy.newaxis, :, :]).sum(-2)
+            return _contract(arg1[..., :, :, numpy.newaxis] * arg2[..., numpy.newaxis, :, :], -2)
 
     @implements(numpy.sin)
     def sin(arg: Array) -> Array:
@@ -3483,7 +3490,7 @@ class __implementations__:
                 raise ValueError(f'shapes {a.shape} and {b.shape} differ in size')
             a = numpy.ravel(a)
             b = numpy.ravel(b)
-        return numpy.sum(numpy.conjugate(a) * b, range(a.ndim))
+        return _contract(numpy.conjugate(a) * b, range(a.ndim))
 
     @implements(numpy.dot)
     def dot(a: IntoArray, b: IntoArray) -> Array:
@@ -3497,7 +3504,7 @@ class __implementations__:
             b = _Transpose.to_end(b, -2)
             a = _Transpose.to_end(_append_axes(a, b.shape[:-1]), a.ndim-1)
             assert a.shape[-b.ndim:] == b.shape
-        return numpy.sum(a * b, -1)
+        return _contract(a * b, -1)
 
     @implements(numpy.reshape)
     def reshape(arg: Array, newshape):
@@ -3767,7 +3774,7 @@ class __implementations__:
             transpose = sorted(range(numpy.ndim(operand)), key=lambda i: axes.index(s[i]))
             insert = tuple(slice(None) if c in s else numpy.newaxis for c in axes)
             factors.append(numpy.transpose(operand, transpose)[insert])
-        return numpy.sum(util.product(factors), range(len(axes)-len(out)))
+        return _contract(util.product(factors), range(len(axes)-len(out)))
 
     @implements(numpy.cross)
     def cross(a, b, axisa=-1, axisb=-1, axisc=-1, axis=None):
